@@ -41,6 +41,7 @@ func vfConfig() *ServerConfig {
 }
 
 func vfNewEnv(nprotos int) *vfEnv {
+	vfNoBackground = true // hook (build tag verif): clock, sweepers and persistence channel are driven by the harness
 	cfg := vfConfig()
 	var slock *SLock
 	if vfSymbolic() {
